@@ -156,8 +156,7 @@ def sendingChanged (s : State) (p : Nat) (st : Sending) : State :=
   | none => s
 
 /-- One task of the ready-to-run queue is polled. -/
-def pollTask (s : State) (now : Nat) (seq : Nat) (id : Nat) : State × Nat × List Out :=
-  let _ := now
+def pollTask (s : State) (seq : Nat) (id : Nat) : State × Nat × List Out :=
   match s.tasks.find? (·.id == id) with
   | none => (s, seq, [])
   | some t =>
@@ -191,11 +190,11 @@ def pollTask (s : State) (now : Nat) (seq : Nat) (id : Nat) : State × Nat × Li
         | .putOk => ({ s with newBlocks := s.newBlocks ++ bs }, seq, [])
         | _ => (s, seq, [])
 
-def pollTasks (s : State) (now seq : Nat) : List Nat → State × Nat × List Out
+def pollTasks (s : State) (seq : Nat) : List Nat → State × Nat × List Out
   | [] => (s, seq, [])
   | id :: ids =>
-    let (s, seq, o1) := pollTask s now seq id
-    let (s, seq, o2) := pollTasks s now seq ids
+    let (s, seq, o1) := pollTask s seq id
+    let (s, seq, o2) := pollTasks s seq ids
     (s, seq, o1 ++ o2)
 
 /-- `established_connections.iter().next()`: the code takes whichever connection the hash
@@ -251,12 +250,53 @@ def drain (s : State) (now seq : Nat) (pref : Nat → Option Nat) : State × Nat
                deadline := now + sendFullInterval }
     else s
   let runq := s.runq
-  let (s, seq, o1) := pollTasks { s with runq := [] } now seq runq
+  let (s, seq, o1) := pollTasks { s with runq := [] } seq runq
   -- events queued by task results (none in the current code) come before handler updates
   let (s, o2) := updateHandlers s now pref
   (s, seq, q ++ o1 ++ o2)
 
 /-- `get_new_blocks` -/
 def takeNewBlocks (s : State) : State × List (Nat × Nat) := ({ s with newBlocks := [] }, s.newBlocks)
+
+/-! ### The client half as a labelled transition system -/
+
+structure Sys where
+  s : State := {}
+  now : Nat := 0
+  seq : Nat := 0       -- blockstore calls started so far
+
+inductive Op where
+  | connect (p c : Nat)
+  | closed (p c : Nat)
+  | get (k : Nat) (fits : Bool)
+  | cancel (q : Nat)
+  | complete (seq : Nat) (r : StoreRes)
+  | msg (p : Nat) (haves dontHaves : List Nat) (blocks : List (Nat × Nat))
+  | sending (p : Nat) (st : Sending)
+  | tick (ms : Nat)
+  | drain (pref : Nat → Option Nat)
+  | takeNewBlocks
+
+def step (x : Sys) : Op → Sys × List Out
+  | .connect p c => ({ x with s := connect x.s p c }, [])
+  | .closed p c => ({ x with s := closed x.s p c }, [])
+  | .get k fits => ({ x with s := (get x.s k fits).1 }, [])
+  | .cancel q => ({ x with s := cancel x.s q }, [])
+  | .complete n r => ({ x with s := (complete x.s n r).getD x.s }, [])
+  | .msg p hs ds bs => ({ x with s := incoming x.s p hs ds bs }, [])
+  | .sending p st => ({ x with s := sendingChanged x.s p st }, [])
+  | .tick ms => ({ x with now := x.now + ms }, [])
+  | .drain pref =>
+    let (s, seq, outs) := drain x.s x.now x.seq pref
+    ({ x with s := s, seq := seq }, outs)
+  | .takeNewBlocks => ({ x with s := (takeNewBlocks x.s).1 }, [])
+
+/-- Run a sequence of operations from a state, collecting all outputs in order. -/
+def run (x : Sys) : List Op → Sys × List Out
+  | [] => (x, [])
+  | op :: ops =>
+    let (x', o1) := step x op
+    let (x'', o2) := run x' ops
+    (x'', o1 ++ o2)
 
 end Beetswap.Client
